@@ -11,6 +11,7 @@ pub mod c01;
 pub mod c04;
 pub mod c05;
 pub mod c07;
+pub mod c18;
 
 pub struct Ctx<'a> {
     pub rep: &'a mut Report,
@@ -114,6 +115,15 @@ pub fn run_detect_prop(p: &dyn DetectProp, thorough: bool, seed: u64, replay: Op
         run_case(p, &mut cx, &case);
     }
     rep
+}
+
+pub type CustomRun = fn(bool, u64, Option<String>) -> Report;
+
+pub fn custom_by_id(id: &str) -> Option<CustomRun> {
+    match id {
+        "C18" => Some(c18::run),
+        _ => None,
+    }
 }
 
 pub fn by_id(id: &str) -> Option<Box<dyn DetectProp>> {
